@@ -474,7 +474,7 @@ def templates() -> Dict[str, Any]:
     reg("VTT", 1, lambda i: [{f"t{i}": "off"}, {f"t{i}": "auto"}], lambda i: [P("VALUE", f"t{i}", dop="tt")])
     reg("RES8", 1, lambda i: [{}], lambda i: [P("RESERVED", f"r{i}", bits=8)])
     reg("RES72", 9, lambda i: [{}], lambda i: [P("RESERVED", f"rw{i}", bits=72)])  # wider than any integer the bit packer extracts in one piece
-    reg("RES68b", 9, lambda i: [{}], lambda i: [P("RESERVED", f"rv{i}", bits=68, bit=4)])  # wide, at a bit position, spilling into a ninth byte
+    reg("RES68b", 10, lambda i: [{}], lambda i: [P("RESERVED", f"rv{i}", bits=72, bit=4)])  # wide, at a bit position, spilling into a tenth byte
     reg("RES8b4", 2, lambda i: [{}], lambda i: [P("RESERVED", f"rb{i}", bits=8, bit=4)])  # 8 bits at bit 4: two bytes
     reg("RES4", 1, lambda i: [{}], lambda i: [P("RESERVED", f"rh{i}", bits=4, bit=4)])
     reg("V8b4", 2, lambda i: [{f"vb{i}": 0}, {f"vb{i}": 0xA5}, {f"vb{i}": 255}], lambda i: [P("VALUE", f"vb{i}", dop="u8b4", bit=4)])
